@@ -68,7 +68,17 @@ func raceOnce(args []string) error {
 	seedRng := vh.Rand(1701)
 	gets, keysTotal := 0, 0
 	for round := 0; round < rounds; round++ {
-		g, k, err := instByName[instNames[round%len(instNames)]].raceRound(round, seedRng, res)
+		in := instByName[instNames[round%len(instNames)]]
+		if round%6 == 5 {
+			// faulty environment: the constructor panics for one key
+			g, err := instByName[instNames[(round/6)%len(instNames)]].panicRound(round, seedRng, nil, nil, res, "OnceConstructor race stress")
+			if err != nil {
+				return err
+			}
+			gets += g
+			continue
+		}
+		g, k, err := in.raceRound(round, seedRng, res)
 		if err != nil {
 			return err
 		}
@@ -316,7 +326,14 @@ func stressOnce(args []string) error {
 	var clock atomic.Int64
 	gets := 0
 	for round := 0; round < rounds; round++ {
-		g, err := instByName[instNames[round%len(instNames)]].stressRound(round, seedRng, &clock, tr, res)
+		var g int
+		var err error
+		if round%6 == 5 {
+			// faulty environment: the constructor panics for one key
+			g, err = instByName[instNames[(round/6)%len(instNames)]].panicRound(round, seedRng, &clock, tr, res, "OnceConstructor stress")
+		} else {
+			g, err = instByName[instNames[round%len(instNames)]].stressRound(round, seedRng, &clock, tr, res)
+		}
 		if err != nil {
 			return err
 		}
@@ -779,4 +796,153 @@ rounds:
 		}
 	}
 	return res.Close(map[string]any{"rounds": done, "calls": calls, "losers_returned_ctx_err": losers})
+}
+
+// panicRound is the stress round with a faulty environment: the constructor
+// PANICS for key "a" (it works for the other keys).  Every goroutine performs
+// exactly one Get; the barrier releases them together.  What the code does
+// with the Gets of "a" other than the one that ran the constructor is to leave
+// them blocked for good -- accepted, they are not waited for -- but none of
+// them may ever RETURN: a returned value would be one the constructor never
+// returned (e.g. the zero value of V).  The constructor must be invoked once.
+//
+// With tr == nil (race-once, built with -race) the goroutines share nothing
+// but a done flag set after their call; with a trace (stress-once) the stamped
+// inv / cons / panic / ret events are logged for OnceTrace.tla (APanic).
+func panicRound[K comparable, V any](in inst[K, V], round int, seedRng *rand.Rand, clock *atomic.Int64,
+	tr *vh.Trace, res *vh.Result, tag string) (gets int, err error) {
+	resetOpaque()
+	const ng = 16
+	nk := 2 + seedRng.IntN(2)
+	zeroB := seedRng.IntN(3) == 0 // key "b" constructs the zero value
+	var shared evlog
+	stamp := func(ev map[string]any) {
+		if tr != nil {
+			shared.add(clock.Add(1), ev)
+		}
+	}
+	var consA, nextID atomic.Int64
+	delay := seedRng.IntN(4)
+	oc := syncutil.NewOnceConstructor(func(kk K) (x V) {
+		k := in.str(kk)
+		spin(delay)
+		if k == "a" {
+			consA.Add(1)
+			panic(constructorPanic{k})
+		}
+		id := int(nextID.Add(1))
+		if k == "b" && zeroB {
+			id = 0
+		} else {
+			x = in.mk(id)
+		}
+		stamp(map[string]any{"t": "cons", "k": k, "v": id})
+		return x
+	})
+	type result struct {
+		x   V
+		how string
+	}
+	slots := make([]result, ng)
+	flags := make([]atomic.Int32, ng)
+	keys := make([]string, ng)
+	for i := range keys {
+		keys[i] = "a"
+		if seedRng.IntN(2) == 0 {
+			keys[i] = string(rune('b' + seedRng.IntN(nk-1)))
+		}
+	}
+	var ready sync.WaitGroup
+	start := make(chan struct{})
+	for i := 0; i < ng; i++ {
+		i := i
+		ready.Add(1)
+		go func() {
+			k := keys[i]
+			ready.Done()
+			<-start
+			stamp(map[string]any{"t": "inv", "g": i, "k": k})
+			r := result{how: "ret"}
+			func() {
+				defer func() {
+					if pv := recover(); pv != nil {
+						r.how = fmt.Sprintf("panic:%v", pv)
+						if cp, ok := pv.(constructorPanic); ok && cp.key == k {
+							r.how = "panic"
+						}
+					}
+				}()
+				r.x = oc.Get(in.key(k))
+			}()
+			if r.how == "ret" {
+				stamp(map[string]any{"t": "ret", "g": i, "k": k, "v": in.id(r.x)})
+			} else {
+				stamp(map[string]any{"t": "panic", "g": i, "k": k})
+			}
+			slots[i] = r
+			flags[i].Store(1)
+		}()
+	}
+	ready.Wait()
+	close(start)
+	// wait for every Get of a working key, and for one Get of "a" to end
+	deadline := time.Now().Add(hangWait)
+	for {
+		okOthers, anyA, reqA := true, false, false
+		for i := range flags {
+			done := flags[i].Load() == 1
+			if keys[i] == "a" {
+				reqA = true
+				anyA = anyA || done
+			} else if !done {
+				okOthers = false
+			}
+		}
+		if okOthers && (anyA || !reqA) {
+			break
+		}
+		if time.Now().After(deadline) {
+			return 0, fmt.Errorf("%s panic round %d: Gets of working keys (or the Get that runs the panicking constructor) did not end within %s", tag, round, hangWait)
+		}
+		time.Sleep(100 * time.Microsecond)
+	}
+	time.Sleep(15 * time.Millisecond) // a wrongly released waiter gets time to return
+	det := map[string]any{"round": round, "instantiation": in.name, "goroutines": ng}
+	panics := 0
+	for i := range flags {
+		if flags[i].Load() != 1 {
+			continue // still blocked in Get("a"): accepted
+		}
+		gets++
+		r := slots[i]
+		switch {
+		case keys[i] != "a":
+			if r.how != "ret" {
+				res.Mismatch(tag+": Get of a working key panicked ("+in.name+")", "Get of a key whose constructor works ended by "+r.how, det)
+			}
+		case r.how == "panic":
+			panics++
+		case r.how == "ret":
+			res.Mismatch(tag+": value out of a panicked construction ("+in.name+")",
+				fmt.Sprintf("Get(\"a\") returned %v although the only invocation of the constructor for \"a\" panicked: a value the constructor never returned (%s)",
+					deref(in.id(r.x)), in.name), det)
+		default:
+			res.Mismatch(tag+": foreign panic ("+in.name+")", "Get ended by "+r.how, det)
+		}
+	}
+	if n := consA.Load(); n > 1 || panics > 1 {
+		res.Mismatch(tag+": constructor re-invoked after its panic ("+in.name+")",
+			fmt.Sprintf("the constructor was invoked %d times for a key although its first invocation panicked (%d Gets ended with the panic) (%s)", n, panics, in.name), det)
+	}
+	if tr != nil {
+		shared.mu.Lock()
+		all := append([]stamped{}, shared.evs...)
+		shared.mu.Unlock()
+		sort.Slice(all, func(a, b int) bool { return all[a].stamp < all[b].stamp })
+		tr.Emit(map[string]any{"t": "new", "round": round, "inst": in.name, "panic": "a"})
+		for _, e := range all {
+			tr.Emit(e.ev)
+		}
+	}
+	return gets, nil
 }
